@@ -32,7 +32,7 @@ REQUIRED_THEOREMS = ['OpusProps.C03.' + t for t in (
     'silkSyms_tables_frozen_eq_repo', 'silkSyms_lsb_loop_exits', 'silkSyms_pulses_fit_int16',
     'silkSyms_symbols_history_free', 'silkSyms_lag_index_packet_bound', 'celtHdr_total_in_range', 'celtHdr_total_arbitrary_bytes',
     'celtHdr_hybrid_total_in_range', 'celtHdr_tables_frozen_eq_repo', 'celtBands_no_fault',
-    'celtFrame_total_under_alloc_contract')]
+    'celtFrame_total', 'celtFrame_total_arbitrary_bytes')]
 UNPROVED = [
     'silkSyms_lag_index_tight_bound: lagIndex in [-16, 277]. Proved is the packet-level bound [-48, 321] '
     '(silkSyms_lag_index_packet_bound, a counting argument plus history-freeness, enough for the opus_int16 store); the sharper '
@@ -41,10 +41,6 @@ UNPROVED = [
     'silkSyms_lockstep (design priority P1): the decoder model reads back exactly the symbols the mirrored encoder calls of '
     'silk_encode_indices / silk_encode_pulses wrote — a corollary of C08 (range coder) that is out of this property\'s scope; '
     'on the implementation it is searched (encoder final range == decoder final range), not proved',
-    'celtFrame_total without hypothesis: celtFrame_total_under_alloc_contract assumes a contract on the coder calls of C17\'s '
-    'allocation model (at most 63 calls, every ec_dec_uint with 2 <= ft < 2^32; AllocOps in OpusProofs/CeltBandsTotal.lean) that '
-    'is true of rate.c but not exported as a theorem by C17 yet; that the allocation returns at all is proved (allocInp_dom + '
-    'C17\'s alloc_main)',
     'celtFrame_within_budget: ec_tell(dec) <= 8*len at the end of every frame (the INTERNAL_ERROR exit of celt_decoder.c:1357 is '
     'never taken) and tell <= budget + slack inside quant_all_bands — needs the cost accounting of the range coder against the '
     'pulse cache (C08/C17 territory); the model keeps the exit, and the differential run observes that neither the decoder nor '
